@@ -8,16 +8,22 @@ import os
 MODE = os.environ.get("VERIF_C20_MODE", "fresh")
 LEAN_MODULES = ["GoaktVerif.Props.C20"]
 THEOREMS = [
+    "GoaktVerif.C20.replay_conservation",
+    "GoaktVerif.C20.inv_init",
+    "GoaktVerif.C20.inv_step",
+    "GoaktVerif.C20.inv_observable",
+    "GoaktVerif.C20.C20_queue_holds",
     "GoaktVerif.C20.stream_refines",
     "GoaktVerif.C20.C20_stream_holds",
-    "GoaktVerif.C20.C20_queue_refuted",
-    "GoaktVerif.C20.C20_witness_outcome",
-    "GoaktVerif.C20.C20_refuted",
+    "GoaktVerif.C20.C20_holds",
+    "GoaktVerif.C20.C20_conservation",
+    "GoaktVerif.C20.C20_pooled_refuted",
+    "GoaktVerif.C20.C20_pooled_witness_outcome",
 ]
 MANIFEST = {
-    "level_text": "Kernel-checked: (1) C20_stream_holds - for EVERY sequence of AddSubscriber/Subscribe/Unsubscribe/RemoveSubscriber/Publish/Broadcast/Iterator/Shutdown/Close the stream model returns to each Iterator() exactly the messages published since the previous call while that subscriber was subscribed and active, in publish order, once (simulation to a per-subscriber specification, induction over the sequence); (2) C20_queue_refuted - the subscriber queue as it was before fix c76ec1e (Michael-Scott queue with nodes recycled through sync.Pool) does NOT refine a FIFO: explicit 17-step schedule of signal(1) || signal(2) || Iterator() after which every call has returned, event 1 is neither delivered nor in the queue and Length() stays 1 (decide on the small-step model; replayed on the real pre-fix queue by the seeded revert). Both models are tied to the code on every run: the queue+subscriber model (Mode.fresh = the code since c76ec1e) step-for-step (same atomic-operation labels from yieldinject, same results, same final heap digest) under random controlled schedules, the stream model by a sequential differential; the outcome oracle (exactly once, per-publisher order, no Iterator panic, Length 0 after drain) is evaluated on the implementation's output.",
-    "level_note": "The all-schedules FIFO-refinement theorem for the repaired queue (Mode.fresh) is stated (QueueRefinesFifo .fresh) and its proof (inductive invariant: one chain of linked nodes, owned unlinked nodes, ghost linearization log) is in progress in Lemmas/C20Queue*.lean; until it is listed in THEOREMS the queue layer of the current code is covered by the tie + oracle only. Publish/Subscribe racing each other are mutex-protected in eventstream.go and modelled sequentially only. Trusted: sync/atomic is sequentially consistent; plain accesses between two atomic sites execute with the preceding site.",
-    "technique": "Lean 4 small-step model at atomic-operation granularity replayed against the real code under controlled schedules (yield injection), refutation by kernel evaluation of a concrete schedule, simulation proof for the sequential stream layer",
+    "level_text": "Kernel-checked, no bounds: (1) C20_queue_holds - the subscriber queue (internal/queue/queue.go as it is since fix c76ec1e, model Mode.fresh: Michael-Scott queue at atomic-operation granularity, any number of enqueuer/dequeuer/Iterator/signal/Shutdown threads, any programs, EVERY schedule) refines a FIFO: the log of linearization events (each emitted by a step of the operation itself: successful CAS:next, successful CAS:head, Load:next=nil) is a FIFO history and the values sequential Dequeues return from any reachable configuration are exactly the abstract queue (inductive invariant Inv: one chain of linked nodes, owned unlinked nodes, ghost log; inv_init, inv_step, inv_observable); C20_conservation: enqueued = dequeued ++ remaining, so nothing is lost, duplicated or reordered. (2) C20_stream_holds - for EVERY sequence of AddSubscriber/Subscribe/Unsubscribe/RemoveSubscriber/Publish/Broadcast/Iterator/Shutdown/Close each Iterator() returns exactly the messages published since the previous call while that subscriber was subscribed and active, in publish order, once (simulation to a per-subscriber specification). (3) C20_pooled_refuted - the queue as it was before the fix does NOT refine a FIFO (17-step schedule, decide). Tie, re-run on every check: the queue+subscriber model is replayed step-for-step against the real code under controlled schedules (same atomic-site labels from yieldinject, same results, same final heap digest; SITES pins the site sequence per function), the stream model by a sequential differential; the outcome oracle (exactly once, per-publisher order, no Iterator panic, Length 0 after drain) is evaluated on the implementation's own output.",
+    "level_note": "Partial in these respects: Publish/Subscribe/Unsubscribe racing each other are mutex-protected in eventstream.go and modelled sequentially only (the concurrent part of the theorem is the subscriber queue, where the lock-free code is); the link between the ghost linearization log and the values operations return is by construction of the model (the event is logged by the step that fixes the return value) and sampled by the tie, not yet a separate theorem. Trusted: sync/atomic is sequentially consistent; plain accesses between two atomic sites execute with the preceding site; Go's GC keeps a node alive while any goroutine holds a pointer to it (that is what makes never-recycled nodes safe).",
+    "technique": "Lean 4 inductive invariant over a small-step model at atomic-operation granularity (all schedules), model replayed against the real code under controlled schedules (yield injection), simulation proof for the sequential stream layer, refutation of the pre-fix code by kernel evaluation of a concrete schedule",
 }
 TRUSTED = [
     "sync/atomic operations are sequentially consistent; plain statements between two atomic sites are executed atomically with the preceding site (the granularity yieldinject gives the real code)",
